@@ -32,6 +32,7 @@ type pathCase struct {
 	This  bool              `json:"this,omitempty"`  // path starts with `this`
 	Root  string            `json:"root"`            // first name
 	Steps []pathStep        `json:"steps,omitempty"` // member accesses
+	Used  bool              `json:"used,omitempty"`  // the runner served another caller's data (same keys, other values, locals, auxiliary entries) before
 }
 
 func (c pathCase) text() string {
@@ -121,6 +122,28 @@ func checkPath(c pathCase) (msg string, class string) {
 	rec := &spec.Recorder{}
 	var data map[string]interface{}
 	r := formula.NewRunner()
+	if c.Used {
+		// an earlier life of the runner: every key of the universe bound to a decoy, `$` locals written through
+		// SetThisValue and by an evaluated assignment, auxiliary entries under the same names
+		decoy := map[string]interface{}{}
+		for _, k := range c16Keys {
+			decoy[k] = map[string]interface{}{"a": "decoy", "Name": "decoy", "__v": "decoy"}
+		}
+		decoy[c.Root] = "decoy-root"
+		r.SetThis(decoy)
+		r.SetThisValue("$v", "stale")
+		if strings.HasPrefix(c.Root, "$") {
+			r.SetThisValue(c.Root, "stale-root")
+		}
+		if q := obs.Parse([]byte("$v = 'stale2', $w = a, [$v, this.a, a.a]")); q.OK() {
+			obs.Eval(r, context.Background(), q.Src.Expression)
+		}
+		r.Set(c.Root, "aux")
+		r.Set("$v", "aux")
+		if c.NoMap {
+			r.SetThis(nil)
+		}
+	}
 	if !c.NoMap {
 		data = spec.BuildMap(c.Data, rec)
 		r.SetThis(data)
@@ -395,6 +418,7 @@ func TestC16Random(t *testing.T) {
 			c.Data[rapid.SampledFrom(c16Keys).Draw(rt, "topkey")] = genValueV(rt, rapid.IntRange(0, 3).Draw(rt, "vdepth"))
 		}
 		c.NoMap = rapid.IntRange(0, 19).Draw(rt, "nomap") == 0
+		c.Used = rapid.IntRange(0, 2).Draw(rt, "used") == 0
 		c.This = rapid.IntRange(0, 4).Draw(rt, "this") == 0
 		// walk down, preferring present keys
 		keys := spec.Keys(c.Data)
@@ -498,6 +522,7 @@ func TestC16Grid(t *testing.T) {
 		if !h.Mine(idx) || run.NViolations() >= 3 {
 			return
 		}
+		c.Used = (idx/7)%2 == 1 // every other block of cases on a runner that served other data before
 		msg, cls := checkPath(c)
 		if cls == "unspecified" {
 			run.Class("unspecified-skipped")
